@@ -128,6 +128,11 @@ func evalCall(
 		}
 		// iter is not called
 		return prop
+	case *object.PanErr:
+		// NOTE: error object set as a prop (abstract props of Either) is shared.
+		// copy it, otherwise stack traces of previous evaluations are accumulated in it
+		copied := *prop
+		return &copied
 	default:
 		return prop
 	}
